@@ -13,7 +13,21 @@ from cayleypy import GapPuzzles, Puzzles  # noqa: E402
 from cayleypy.puzzles import gap_puzzles as gp  # noqa: E402
 from cayleypy.puzzles.hungarian_rings import get_group  # noqa: E402
 
-THEOREMS = []
+THEOREMS = [
+    "Cv.C16.fromCycles_toCycles",
+    "Cv.C16.parse_print",
+    "Cv.C16.parse_print_identity",
+    "Cv.C16.parse_wellFormed",
+    "Cv.C16.centralFromIp_spec",
+    "Cv.C16.globe_inverse_closed",
+    "Cv.C16.globe_valid",
+    "Cv.C16.hungarianRings_cycles",
+    "Cv.C16.cube_structure",
+    "Cv.C16.cube_inverse_closed",
+    "Cv.C16.cube_check",
+    "Cv.C16.cube_matches_library_2_3_4",
+    "Cv.C16.cube_check_evaluated_2_3",
+]
 
 
 # ---------------------------------------------------------------- independent reader of the GAP format
@@ -125,6 +139,14 @@ def check_gap_text(ck, text, label, synthetic=None):
             problems.append("(check) independent reader disagrees with the written permutations")
     if problems:
         ck.violation("C16/gap/" + problems[0].split()[0], f"{label}: " + "; ".join(problems), {"case": case, "problems": problems})
+        return
+    # the Lean model of the reader (Cv.Gap.parseGap) on the same text
+    m = ck.driver().ask("gap.parse " + text.encode("utf-8").hex())
+    want = f"ok ; {' | '.join(d.generator_names)} ; {' | '.join(' '.join(map(str, g)) for g in d.generators_permutations)} ; {' '.join(map(str, d.central_state))}"
+    if " ".join(m.split()) != " ".join(want.split()):
+        ck.correspondence_break("parseGap (model) and the library's reader differ", {"case": case, "model": m[:200], "impl": want[:200]})
+    else:
+        ck.count("lean-gap-model-agrees")
 
 
 def cycles_of(p):
@@ -252,6 +274,14 @@ def check_cube(ck, n):
                     problems.append(f"{metric}: generator {nm} is not the corresponding power of the layer turn")
             if metric != "QSTM" and n % 2 == 1 and any(nm.startswith(("f", "r", "d")) and nm[1:].split("'")[0].split("^")[0].split("_")[0] == str((n - 1) // 2) for nm in d.generator_names):
                 problems.append(f"{metric}: central layer turns must be excluded for odd n")
+    for metric, op in (("QSTM", "cube_qstm"), ("QTM", "cube_qtm"), ("HTM", "cube_htm")):
+        d = Puzzles.rubik_cube(n, metric)
+        m = ck.driver().ask(f"puzzle {op} ; {n}")
+        want = f"ok ; {' | '.join(d.generator_names)} ; {' | '.join(' '.join(map(str, g)) for g in d.generators_permutations)} ; {' '.join(map(str, d.central_state))}"
+        if " ".join(m.split()) != " ".join(want.split()):
+            ck.correspondence_break(f"cube {metric} n={n}: Lean closed-form specification and library differ", {"case": case, "metric": metric})
+        else:
+            ck.count("lean-cube-spec-agrees")
     if problems:
         ck.violation("C16/cube/" + problems[0].split()[0], f"cube {n}: " + "; ".join(problems[:6]), {"case": case, "problems": problems[:20]})
 
@@ -304,6 +334,12 @@ def check_rings(ck, params, documented):
         for nm, p in g.items():
             if nm.startswith("-") and p != graphs.inv_perm(g[nm[1:]]):
                 problems.append(f"{nm} is not the inverse rotation")
+    m = ck.driver().ask(f"puzzle rings ; {ls} {li} {rs} {ri}")
+    want = f"ok ; {' | '.join(d.generator_names)} ; {' | '.join(' '.join(map(str, g)) for g in d.generators_permutations)} ; {' '.join(map(str, d.central_state))}"
+    if " ".join(m.split()) != " ".join(want.split()):
+        ck.correspondence_break("hungarianRings: Lean closed-form specification and library differ", {"case": case, "model": m[:200], "impl": want[:200]})
+    else:
+        ck.count("lean-rings-spec-agrees")
     if problems:
         ck.violation("C16/rings/" + problems[0].split()[0], f"hungarian_rings{params}: " + "; ".join(problems), {"case": case, "problems": problems})
 
@@ -337,6 +373,12 @@ def check_globe(ck, a, b):
             problems.append(f"flip f{f} is not an involution")
     if len(g) != 2 * (a + 1) + 2 * b:
         problems.append("number of generators is not 2(a+1) + 2b")
+    m = ck.driver().ask(f"puzzle globe ; {a} {b}")
+    want = f"ok ; {' | '.join(d.generator_names)} ; {' | '.join(' '.join(map(str, g)) for g in d.generators_permutations)} ; {' '.join(map(str, d.central_state))}"
+    if " ".join(m.split()) != " ".join(want.split()):
+        ck.correspondence_break("globe: Lean closed-form specification and library differ", {"case": case})
+    else:
+        ck.count("lean-globe-spec-agrees")
     if problems:
         ck.violation("C16/globe/" + problems[0].split()[0], f"globe({a},{b}): " + "; ".join(problems), {"case": case, "problems": problems})
 
